@@ -1958,7 +1958,12 @@ class Method:
     @property
     def void(self) -> bool:
         """Return True if this method has no return value, False otherwise."""
-        return self.output.ident.proto == "google.protobuf.Empty"
+        # A stream of Empty messages is still a stream: the caller iterates it
+        # to learn how many messages arrived, when it ended and how.
+        return (
+            self.output.ident.proto == "google.protobuf.Empty"
+            and not self.server_streaming
+        )
 
     def with_context(
         self,
